@@ -33,6 +33,14 @@ class C20(Monitor):
         if len(ev) != len(set(ev)):
             ctx.violate("C20", "duplicate-shift-event", f"shift event reported twice in step {ctx.k}: {sorted(ev)}")
         evset = set(ev)
+        for vid, sid in getattr(ctx, "added_humans", {}).items():
+            if vid not in self.veh:  # a driver who joined between two calls starts unavailable, like those of the vehicles file
+                self.veh[vid] = sid
+                self.avail[vid] = False
+                ctx.count("c20_drivers_joined_mid_run")
+                a, b = self.sched[sid]
+                if in_shift(a, b, tk):
+                    ctx.count("c20_drivers_joined_while_their_shift_was_running")
         for vid, sid in self.veh.items():
             v = s.vehicles.get(vid)
             if v is None:
